@@ -288,7 +288,7 @@ func c13RandText(r *rand.Rand, n int) []rune {
 func toks(src string) Req { return Req{Op: "tokens", Src: Runes(src)} }
 
 func checkC13(c *Ctx) {
-	c.rule = "forward: random texts (length <= 200, biased to the ten quote characters, backtick, CR, LF, TAB, letters of the escape names, +, hex digits, NUL, CJK, astral) written as literals of the five quote spellings by an encoder that picks, per character, any rule-conformant spelling (raw, `CR` `LF` `CRLF` `TAB` `SP` `BK`, `U+hex`, backtick-wrapped unpaired quote, raw balanced pairs); zh.NextToken must return one token of the right type whose literal is the text, then EOF; for “ ”, 「 」 and 《 》 (the three documented ways to write a text value) also 输出‹literal› end to end; balanced pairs of the literal's own quotes nested 1 … 100000 deep (plain, flat, alternating with another family, followed by more text), as a token and through 输出; programs that end inside an unclosed literal (five opening quotes x five bodies x eleven positions: after each kind of comment, after a statement, in a declaration, a block, an argument list) must be syntax errors. reverse: all strings up to length 3 (quick) / 4 (thorough) plus random longer ones over a 28-symbol critical alphabet placed between the outer quotes of three families, against a three-valued reference decoder (value / unterminated = syntax error / unspecified where four readings of 'other backtick text is kept literally' differ or a U+ escape is not a scalar value). distinct_nontrivial = distinct (direction, family, escape kinds used / reference outcome class + content)"
+	c.rule = "forward: random texts (length <= 200, biased to the ten quote characters, backtick, CR, LF, TAB, letters of the escape names, +, hex digits, NUL, CJK, astral) written as literals of the five quote spellings by an encoder that picks, per character, any rule-conformant spelling (raw, `CR` `LF` `CRLF` `TAB` `SP` `BK`, `U+hex`, backtick-wrapped unpaired quote, raw balanced pairs); zh.NextToken must return one token of the right type whose literal is the text, then EOF; for “ ”, 「 」 and 《 》 (the three documented ways to write a text value) also 输出‹literal› end to end; literals in source files longer than one read block, their characters (U+FEFF, multi-byte) sliding across the 4096 / 8192 byte marks, with and without a BOM; balanced pairs of the literal's own quotes nested 1 … 100000 deep (plain, flat, alternating with another family, followed by more text), as a token and through 输出; programs that end inside an unclosed literal (five opening quotes x five bodies x eleven positions: after each kind of comment, after a statement, in a declaration, a block, an argument list) must be syntax errors. reverse: all strings up to length 3 (quick) / 4 (thorough) plus random longer ones over a 28-symbol critical alphabet placed between the outer quotes of three families, against a three-valued reference decoder (value / unterminated = syntax error / unspecified where four readings of 'other backtick text is kept literally' differ or a U+ escape is not a scalar value). distinct_nontrivial = distinct (direction, family, escape kinds used / reference outcome class + content)"
 	c.assumptions = []string{"token type codes 2/6/7 for the three literal families and 0 for EOF", "cases where the documented rules admit more than one reading are skipped and counted"}
 	rng := c.Rand("c13")
 
@@ -364,6 +364,45 @@ func checkC13(c *Ctx) {
 		}
 	})
 
+	// a literal reads back exactly wherever it stands in a source *file*: files longer than one read
+	// block (4096 bytes), the literal's characters (U+FEFF, 2- / 3- / 4-byte characters) sliding
+	// across the block boundaries, with and without a byte-order mark at the start of the file
+	{
+		type lf struct {
+			name, want string
+		}
+		lfs := []lf{}
+		freqs := []Req{}
+		texts := []string{"甲\uFEFF乙\uFEFF\uFEFF丙", "\uFEFF", "é\uFEFF😀\uFEFFz", "一二三四五六七八九十"}
+		for _, mark := range []int{4096, 8192} {
+			for delta := -14; delta <= 3; delta++ {
+				for ti, t := range texts {
+					for fi, fam := range []quoteFamily{c13Families[0], c13Families[1], c13Families[4]} {
+						if (delta+ti+fi+mark/4096)%3 != 0 && c.Quick() {
+							continue
+						}
+						for _, bom := range []string{"", "\uFEFF"} {
+							head := bom + "注：填充"
+							stmt := "输出" + string(fam.open)
+							pad := mark + delta - len(head) - 1 - len(stmt)
+							src := head + strings.Repeat("x", pad) + "\n" + stmt + t + string(fam.close) + "\n"
+							lfs = append(lfs, lf{fmt.Sprintf("file/%s/mark%d%+d/t%d/bom%v", fam.name, mark, delta, ti, bom != ""), t})
+							freqs = append(freqs, Req{Op: "exec", Main: "main.zn", Files: []File{{Path: "main.zn", Data: widen([]byte(src))}}, EvalBudget: 1000})
+						}
+					}
+				}
+			}
+		}
+		c.runBatches(freqs, 40, func(i int, req *Req, resp *Resp) {
+			c.Eval()
+			l := lfs[i]
+			c.Nontrivial("in-file|" + l.name + "|" + resp.Kind)
+			c.Count("literals_in_long_files", 1)
+			if resp.Kind != "value" || resp.Val == nil || resp.Val.T != "text" || resp.Val.S() != l.want {
+				c.Violation("in-file:"+l.name, fmt.Sprintf("%s: a source file whose literal holds %q (starting near a 4096-byte block boundary) yields %s", l.name, l.want, clip(resp.Outcome(), 160)), map[string]interface{}{"case": l.name})
+			}
+		})
+	}
 	// nested balanced pairs at any depth: the literal closes at its own closing quote only
 	{
 		type dn struct {
